@@ -103,7 +103,7 @@ def worker_main(pid, tier, verif_seed, start, stride, count, out_path, deadline_
                 f.write(json.dumps(rec) + "\n")
                 f.flush()
                 continue
-            faulthandler.dump_traceback_later(getattr(mod, "RUN_TIMEOUT_S", 300), exit=True)
+            faulthandler.dump_traceback_later(max(900, 3 * getattr(mod, "RUN_TIMEOUT_S", 300)), exit=True)
             out = run_one(mod, sc)
             faulthandler.cancel_dump_traceback_later()
             out["run"] = run
@@ -227,7 +227,7 @@ def check_main(pid, tier, verif_seed, runs=None, workers=None, keep=False):
         p = _spawn(["worker", pid, tier, str(verif_seed), str(w), str(workers), str(count), out, str(wallcap)])
         procs.append((w, p, out))
     harness_errors = []
-    hard_deadline = time.time() + wallcap + 240
+    hard_deadline = time.time() + wallcap + 1500
     for w, p, out in procs:
         try:
             so, _ = p.communicate(timeout=max(5.0, hard_deadline - time.time()))
